@@ -91,23 +91,63 @@ func paramObjs(p *Prog, fd *ast.FuncDecl) []types.Object {
 	return out
 }
 
-// maskTest matches `X.hi & M == V` and returns M, V.
+// maskTest matches `X.hi & M == V` (also `!= 0` / `== 0` on a single-bit
+// mask, `!=` forms through negation) and returns M, V such that the
+// expression is true iff hi & M == V; ok is false for other shapes.
 func (p *Prog) maskTest(e ast.Expr, recv types.Object) (m, v uint64, ok bool) {
-	be, isB := ast.Unparen(e).(*ast.BinaryExpr)
-	if !isB || be.Op != token.EQL {
+	m, v, eq, ok := p.maskTestEq(e, recv)
+	if !ok {
+		return 0, 0, false
+	}
+	if eq {
+		return m, v, true
+	}
+	// hi & M != V is expressible as an equality only for a single-bit mask
+	if m != 0 && m&(m-1) == 0 {
+		return m, v ^ m, true
+	}
+	return 0, 0, false
+}
+
+// maskTestEq matches (X.hi & M) ==/!= V.
+func (p *Prog) maskTestEq(e ast.Expr, recv types.Object) (m, v uint64, eq bool, ok bool) {
+	neg := false
+	for {
+		e = ast.Unparen(e)
+		if ue, isU := e.(*ast.UnaryExpr); isU && ue.Op == token.NOT {
+			neg = !neg
+			e = ue.X
+			continue
+		}
+		break
+	}
+	be, isB := e.(*ast.BinaryExpr)
+	if !isB || (be.Op != token.EQL && be.Op != token.NEQ) {
 		return
 	}
-	l, isB := ast.Unparen(be.X).(*ast.BinaryExpr)
+	lhs, rhs := be.X, be.Y
+	if p.constOf(lhs) != nil {
+		lhs, rhs = rhs, lhs
+	}
+	l, isB := ast.Unparen(lhs).(*ast.BinaryExpr)
 	if !isB || l.Op != token.AND {
 		return
 	}
-	sel, isS := ast.Unparen(l.X).(*ast.SelectorExpr)
+	fld, mask := l.X, l.Y
+	if p.constOf(fld) != nil {
+		fld, mask = mask, fld
+	}
+	sel, isS := ast.Unparen(fld).(*ast.SelectorExpr)
 	if !isS || sel.Sel.Name != "hi" || p.objOf(sel.X) != recv {
 		return
 	}
-	m, ok1 := p.constUint64(l.Y)
-	v, ok2 := p.constUint64(be.Y)
-	return m, v, ok1 && ok2
+	m, ok1 := p.constUint64(mask)
+	v, ok2 := p.constUint64(rhs)
+	if !ok1 || !ok2 {
+		return
+	}
+	eq = (be.Op == token.EQL) != neg
+	return m, v, eq, true
 }
 
 type classPred struct {
@@ -164,8 +204,8 @@ func ruleLayoutPredicates(c *Ctx) {
 		got := env.canonStmts(fd.Body.List)
 		steer := uint64(3) << 61
 		coef := uint64(1)<<bidForm1ExpL - 1
-		want1 := fmt.Sprintf("if(((R.hi&K(%d))==K(%d))){return K(false)}else{return ((R.lo==K(0))&&((R.hi&K(%d))==K(0)))}", steer, steer, coef)
-		want2 := fmt.Sprintf("if(((R.hi&K(%d))==K(%d))){return K(false)};return ((R.lo==K(0))&&((R.hi&K(%d))==K(0)))", steer, steer, coef)
+		want1 := fmt.Sprintf("if(((K(%d)&R.hi)==K(%d))){return K(false)}else{return (((K(%d)&R.hi)==K(0))&&(K(0)==R.lo))}", steer, steer, coef)
+		want2 := fmt.Sprintf("if(((K(%d)&R.hi)==K(%d))){return K(false)};return (((K(%d)&R.hi)==K(0))&&(K(0)==R.lo))", steer, steer, coef)
 		c.check(got == want1 || got == want2, "pred:Decimal.IsZero", fd, "zero iff not form 2 and hi[48..0]‖lo == 0",
 			"IsZero must be: steering bits 11 -> false, else lo == 0 && hi & (2^49-1) == 0; body is "+got)
 	}
@@ -214,14 +254,14 @@ func ruleLayoutCompose(c *Ctx) {
 					c.undecided("decompose.shape", fd, "decompose must return (uint128 literal, int16)")
 					continue
 				}
-				m, v, ok := p.maskTest(pa.cond, recv)
+				m, v, eq, ok := p.maskTestEq(pa.cond, recv)
 				if !ok || m != 3<<61 || v != 3<<61 {
 					c.bad("decompose.cond", pa.cond, "decompose must select form 2 iff hi[62..61] == 11")
 					continue
 				}
 				var wantHi, wantExp bitvec
 				form := "form1"
-				if pa.taken {
+				if pa.taken == eq {
 					form = "form2"
 					wantHi = expectVec([]run{{46, 0, "d.hi", 0}}, []int{49})
 					wantExp = expectVec([]run{{13, 0, "d.hi", bidForm2ExpL}}, nil)
@@ -419,15 +459,27 @@ func (p *Prog) checkComposePaths(c *Ctx, fd *ast.FuncDecl, ps []types.Object) {
 		c.undecided("compose.shape", fd, "compose body must be: var hi; form switch; sign; return")
 		return
 	}
-	// form switch condition: sig[1] > 2^49-1
-	be, ok := ifForm.Cond.(*ast.BinaryExpr)
+	// form switch condition: sig[1] > 2^49-1 (or the complementary `<=` with the arms swapped)
 	okCond := false
-	if ok && be.Op == token.GTR {
-		if ix, ok := ast.Unparen(be.X).(*ast.IndexExpr); ok && p.objOf(ix.X) == ps[1] {
-			i, ok1 := p.constInt64(ix.Index)
-			k, ok2 := p.constUint64(be.Y)
-			okCond = ok1 && ok2 && i == 1 && k == 1<<bidForm1ExpL-1
+	thenIsForm2 := true
+	if nx, nop, nk, ok := p.normCmp(ifForm.Cond); ok && nk.IsUint64() && nk.Uint64() == 1<<bidForm1ExpL-1 {
+		if ix, ok := nx.(*ast.IndexExpr); ok && p.objOf(ix.X) == ps[1] {
+			if i, ok := p.constInt64(ix.Index); ok && i == 1 {
+				switch nop {
+				case token.GTR:
+					okCond = true
+				case token.LEQ:
+					okCond, thenIsForm2 = true, false
+				}
+			}
 		}
+	}
+	form2Arm, form1Arm := ifForm.Body.List, []ast.Stmt(nil)
+	if eb, ok := ifForm.Else.(*ast.BlockStmt); ok {
+		form1Arm = eb.List
+	}
+	if !thenIsForm2 {
+		form2Arm, form1Arm = form1Arm, form2Arm
 	}
 	c.check(okCond, "compose.switch", ifForm, "form 2 iff coefficient >= 2^113 (sig[1] > 2^49-1)", "compose must switch to the steering form exactly when the coefficient needs bit 113: sig[1] > 0x0001_ffff_ffff_ffff")
 	names := map[types.Object]string{ps[0]: "neg", ps[1]: "sig", ps[2]: "exp"}
@@ -446,7 +498,7 @@ func (p *Prog) checkComposePaths(c *Ctx, fd *ast.FuncDecl, ps []types.Object) {
 	}
 	// form 2 arm: a valid coefficient (<= 5·2^111-1, E7 G2/G4) has sig[1] = 100‖x (bits 49..47 = 100)
 	form2sig := expectVec([]run{{46, 0, "sig1", 0}}, []int{49})
-	a, okA := evalArm(ifForm.Body.List, map[string]bitvec{"sig1": form2sig})
+	a, okA := evalArm(form2Arm, map[string]bitvec{"sig1": form2sig})
 	wantA := expectVec([]run{{60, 47, "exp", 0}, {46, 0, "sig1", 0}}, []int{62, 61})
 	if !okA {
 		c.undecided("compose.form2", ifForm, "form 2 arm is not a single assignment")
@@ -456,10 +508,10 @@ func (p *Prog) checkComposePaths(c *Ctx, fd *ast.FuncDecl, ps []types.Object) {
 	// form 1 arm: sig[1] <= 2^49-1, i.e. bits >= 49 are zero
 	form1sig := expectVec([]run{{48, 0, "sig1", 0}}, nil)
 	eb, _ := ifForm.Else.(*ast.BlockStmt)
-	if eb == nil {
+	if eb == nil || form1Arm == nil {
 		c.undecided("compose.form1", ifForm, "form 1 arm missing")
 	} else {
-		b, okB := evalArm(eb.List, map[string]bitvec{"sig1": form1sig})
+		b, okB := evalArm(form1Arm, map[string]bitvec{"sig1": form1sig})
 		wantB := expectVec([]run{{62, 49, "exp", 0}, {48, 0, "sig1", 0}}, nil)
 		if !okB {
 			c.undecided("compose.form1", ifForm, "form 1 arm is not a single assignment")
